@@ -926,6 +926,25 @@ impl From<Symbol> for SymExpr {
     }
 }
 
+impl SymExpr {
+    /// Create an expression for a fixed dimension size.
+    ///
+    /// Sizes which do not fit in an `i32` cannot be represented as a value.
+    /// They become a positive symbol named after the size instead, so that
+    /// they do not wrap around to a negative or unrelated value.
+    pub fn from_size(size: usize) -> SymExpr {
+        match i32::try_from(size) {
+            Ok(value) => SymExpr::Value(value),
+            Err(_) => Symbol {
+                name: size.to_string(),
+                positive: true,
+                synthetic: false,
+            }
+            .into(),
+        }
+    }
+}
+
 /// Create a symbol with a given name and an assumption that the value is
 /// positive (`>= 0`).
 ///
